@@ -91,6 +91,8 @@ def enumerate_cases(tier, seed):
     for (d, m), q, init, calib, ssm, lin in itertools.product(ax["dm"], ax["q"], ax["init"], ax["calib"], ax["ssm"], ax["lin"]):
         if q < m:
             continue
+        if tier != "quick" and q >= 6 and not ((d, m) == (2, 1) and init == ("exact" if lin == "ts0" else "inexact")):
+            continue  # budget: the 60-digit reference at q = 6 costs ~5 min per configuration; one (d, m) and one init kind per linearisation
         fnames = sorted(alphabets.fields(d, m, tier))
         # one field per configuration (quick: chosen by VERIF_SEED; thorough: rotating with the configuration so that all fields occur)
         rot = seed if tier == "quick" else (seed + q + len(ssm) + len(calib) + (lin == "ts1") + (init == "exact"))
